@@ -3,7 +3,8 @@ R1 the payoff functionals against the definitions of the statement (column algeb
 functional on its underlier's spot with its own call/strike; R3 clauses fold over payoff_fn() in registration order;
 R5 index hazard floor(start/dt).
 Added after the seeded-defect rounds: R6 a float strike / dt is compared with the prices unrounded; R7 payoff() keeps no memoised state; R3 the clause iterators may not filter or de-duplicate.
-Third round: R9 call histories of the clause / underlier registries on every derivative class, R9x every history of at most 2 (thorough: 3) registry operations against a reference model."""
+Third round: R9 call histories of the clause / underlier registries on every derivative class, R9x every history of at most 2 (thorough: 3) registry operations against a reference model.
+Rounds 4-5: R2 also re-binding statements and exports of pfhedge.instruments."""
 import ast
 
 import sympy as sp
